@@ -128,3 +128,79 @@ def faulty(case, res):
         S.shutdown()
         return S.ops[:30]
     sim_case(case, res, body)
+
+
+@scenario("bystander")
+def bystander(case, res):
+    """a healthy subscriber (and a healthy owner) whose output is parked for a moment, while ANOTHER connection ends inside its own
+    readiness event (garbage, end of stream, reset) or a routed request of another peer runs into its deadline; directly afterwards
+    the healthy one reads again - nothing else becomes readable in between. Once it has caught up its byte stream and replica must
+    be complete, exactly as in the same history without the other connection's end."""
+    prm = case.get("params", {})
+
+    def body(S, rng):
+        wbuf = int(S.cfg.get("CONFIG_MAX_WRITE_BUFFER_SIZE", 5120))
+        sub = S.connect("sub", rng.choice(["raw", "uds", "ws"]))
+        if sub.transport == "ws":
+            S.handshake(sub)
+        S.request(sub, "fetch", {"id": "f", "path": {"startsWith": "s/"}})
+        own = S.connect("own", rng.choice(["raw", "uds"]))
+        for i in range(3):
+            S.request(own, "add", {"path": "s/%d" % i, "value": 0})
+        mown = S.connect("mown", "raw")
+        S.request(mown, "add", {"path": "m/never"})
+        S.settle()
+        for rnd in range(prm.get("rounds", 5)):
+            how = rng.choice(["garbage", "eof", "rst", "oversize", "deadline", "none"])
+            x = S.connect("x%d" % rnd, rng.choice(["raw", "uds", "ws"]))
+            if x.transport == "ws":
+                S.handshake(x)
+            S.request(x, "info")
+            if how == "deadline":
+                # a routed request of x that its owner never answers: the timer ends itself inside its own readiness event
+                S.request(x, "call", {"path": "m/never", "timeout": 2})
+            S.settle()
+            sub.slow = True
+            S.sim.wpol(sub.fd, budget=rng.choice([0, 0, 3, 40]))
+            total = 0
+            while total < wbuf // 4:
+                n = rng.choice([0, 5, 30])
+                S.request(own, "change", {"path": "s/%d" % rng.randrange(3), "value": "w" * n})
+                total += n + 100
+                if rng.random() < 0.5:
+                    S.settle()
+            S.settle()
+            # the other connection ends in its own event ...
+            x.may_close, x.track_input = True, False
+            if how == "garbage":
+                x.healthy = False
+                S.send_bytes(x, bytes(rng.randrange(256) for _ in range(rng.randrange(4, 30))), None)
+                S.end(x, "eof")
+            elif how == "oversize":
+                x.healthy = False
+                S.send_bytes(x, b"\x7f\xff\xff\xff" + b"z" * 8, None)
+                S.end(x, "eof")
+            elif how in ("eof", "rst"):
+                S.end(x, how)
+            elif how == "deadline":
+                S.advance(3 * 10**9)
+            S.settle()
+            # ... and the only thing that happens next is that the subscriber reads again
+            S.sim.wpol(sub.fd, budget=-1, cap=-1)
+            S.settle()
+            S.settle()
+            sub.slow = False
+            S.sig("bystander-round", how, sub.transport, x.transport)
+            S.stats["bystander_rounds"] += 1
+            if sub.closed:
+                S.v("conn/slow-subscriber-dropped-below-the-buffer-limit", "%s after about %d bytes" % (sub.name, total))
+                break
+            S.settle()          # caught up: byte stream equal to what was generated
+            if how in ("none", "deadline"):
+                S.end(x, "eof")
+                S.settle()
+        st = S.close_all()
+        S.check_idle_baseline(st)
+        S.shutdown()
+        return S.ops[:10]
+    sim_case(case, res, body)
